@@ -27,13 +27,20 @@ ASSUMPTIONS = ["a data unit is whatever one data_received call gets (TCP segment
 TIMEOUT = 20
 
 
+SENDERS = [b"cobas", b"XN-550^1.0", b"LabHub^gw", b""]
+
+
 def conn_script(r):
     """timed event sequence of one connection, times relative (gaps)"""
     evs = []
     for _ in range(r.choice([1, 1, 2])):
         evs.append(("r", gens.ENQ))
-        for _ in range(r.choice([0, 1, 2])):
-            frames, _ = gens.message_frames(r, seq=r.randrange(8), parts=r.choice([1, 2, 3]))
+        for mi in range(r.choice([0, 1, 2])):
+            text = None
+            if r.random() < 0.5:
+                # several connections report under the same sender (identical analysers, a shared middleware name)
+                text = b"H|\\^&|||" + r.choice(SENDERS) + b"|||||host||P|1\r" + gens.record_text(r, letter_first=True)
+            frames, _ = gens.message_frames(r, seq=r.randrange(8), parts=r.choice([1, 2, 3]), text=text)
             for f in frames:
                 if r.random() < 0.15:
                     evs.append(("r", gens.corrupt(r, f)[0]))
